@@ -222,6 +222,29 @@ CLAIMS = {
           "length, v2 RLE/dictionary pages with nulls, v1 RLE booleans, v2 DELTA INT64, zero-length pages); known findings "
           "KF-C03-* rest on native code (delta decoder, 32-bit accumulator) or on the created_by heuristic."),
     technique="TLA+ spec as generator of valid layouts (TLC exhaustive sub-lattices + simulation); independent encoder; replay"),
+ "C06": dict(
+    level="model_checking",
+    text=("spec/Access.tla models a handle as a VIEW (list of row-group positions) and transcribes Python's slice "
+          "semantics (PySlice_AdjustIndices) for pf[i:j:k] / pf[i], composed with pickle/copy/deepcopy; TLC enumerates every "
+          "program (derivations of depth 1 over the full argument grid with every read kind: to_pandas, iter_row_groups, "
+          "head(n) for every n, count, file-like, column selections; depth 2-3 compositions) with the expected view, row "
+          "counts and rows; each program is executed on a single-file and a hive dataset and compared with the "
+          "corresponding projection of the full read, cell by cell, plus every reported count."),
+    design_ref="DESIGN.md section 5 C06, section 10",
+    note=("Datasets are written without a row index (written non-range indexes are broken under pandas 3 here: C01's "
+          "concern). One defect repaired (head() on an empty view)."),
+    technique="TLA+ spec of views with Python slice semantics; TLC enumeration of access programs; spec->code replay"),
+ "C17": dict(
+    level="model_checking",
+    text=("spec/Predict.tla enumerates the product of file classes (own with and without pandas metadata, foreign file from "
+          "the independent encoder, hive and drill partitioned) and read-option tuples (columns all/subset/reordered, "
+          "categories none/list/dict/empty, index none/False/name, pandas_nulls, dtypes override); for each, what the handle "
+          "reports from metadata alone (columns and order, dtype per column, categorical/partition/index columns, total and "
+          "per-row-group counts) is compared with what to_pandas with the same options returns."),
+    design_ref="DESIGN.md section 5 C17, section 6",
+    note=("Weaker than the other model-checked properties: TLC contributes the exhaustive option product; the dtype case "
+          "analysis of _dtypes is not transcribed into TLA+, both sides of the comparison are observations of the code."),
+    technique="TLA+ spec enumerating file classes x read options (TLC); prediction-versus-read comparison on the real code"),
 }
 
 NOT_BUILT = "not built yet (construction order in DESIGN.md section 9)"
